@@ -13,7 +13,7 @@ From Soy Require Import Proofs.MsgIdProofs.
 From Soy Require Import Model.Bytes Model.Outcome Model.Num Model.Values Model.Ast Model.MsgId
   Model.Escape Model.Interp Model.MsgParts Spec.MsgCat Proofs.MsgPartsProofs Proofs.InterpRelProofs Proofs.InterpPosProofs Proofs.MsgCatProofs
   Proofs.MsgPluralProofs Model.PoFile Proofs.PoFileProofs Model.JsGen Proofs.MsgJsProofs
-  Model.PoEntry Proofs.PoEntryProofs Model.MiniJS Proofs.InterpGuard Proofs.MiniJSProofs Proofs.MiniJSPrint Proofs.MiniJSCtl Proofs.MiniJSGo Proofs.MiniJSStmt Proofs.MiniJSGen Proofs.MiniJSSim Proofs.MsgWalkEq Proofs.MsgThreeSided.
+  Model.PoEntry Proofs.PoEntryProofs Model.PoBundle Proofs.PoBundleProofs Model.MiniJS Proofs.InterpGuard Proofs.MiniJSProofs Proofs.MiniJSPrint Proofs.MiniJSCtl Proofs.MiniJSGo Proofs.MiniJSStmt Proofs.MiniJSGen Proofs.MiniJSSim Proofs.MsgWalkEq Proofs.MsgThreeSided.
 Open Scope N_scope.
 
 (* ------------------------------------------------------------------ *)
@@ -557,6 +557,21 @@ Theorem C11_po_parse_extracted_file : forall is_print (es : list xentry), Forall
   pe_parse (pe_write_file is_print (map xentry_msg es)) = Ok (map xentry_read es).
 Proof. exact parse_extracted_file. Qed.
 Print Assumptions C11_po_parse_extracted_file.
+
+(* FROM THE BYTES OF THE CATALOGUE TO THE BUNDLE: po.Parse followed by the loop of pomsg.newBundle (references read
+   with strings.HasPrefix and strconv.ParseUint, id 0 refused, untranslated entries skipped, the later of two entries
+   with one id wins) on the file File.WriteTo writes for the extractor's entries -- any descriptions, ids below 2^64,
+   any msgstr filled in -- is [new_bundle] on the (id, plural variable, msgstr) triples: the abstract catalogue of
+   Model/MsgParts.v, over which every rendering theorem above is stated (bundle_message bd id = Some (new_message ..)) *)
+Theorem C11_po_load_extracted_file : forall is_print (es : list xentry), Forall xentry_ok es -> Forall xentry_id64 es ->
+  pb_load (pe_write_file is_print (map xentry_msg es)) = new_bundle (map xentry_po es).
+Proof. exact load_extracted_file. Qed.
+Print Assumptions C11_po_load_extracted_file.
+
+(* strconv.ParseUint reads back the %d of a uint64 *)
+Theorem C11_po_parse_uint_dec : forall id, id < 18446744073709551616 -> pb_parse_uint (dec_of_N id) = Some id.
+Proof. exact parse_uint_dec. Qed.
+Print Assumptions C11_po_parse_uint_dec.
 
 (* before the repair (the description written as ONE "#. " value): a description of two lines puts its second
    line inside the entry, and the message Parse reads has no reference and no msgid *)
